@@ -46,6 +46,8 @@ enum MOp {
     KbMutate { kind: u64, q: usize },
     /// parse_rule / parse_query on generated and hand-picked texts
     ParseTexts { seed: u64 },
+    /// the shared generator's Assert op: add_rules(kb, extra_clauses[c]) between queries
+    AssertExtra { c: usize },
 }
 
 struct Handle<'a> {
@@ -212,7 +214,7 @@ fn make_scenario(seed: u64, part: &str, index: u64) -> (Scenario, Vec<MOp>) {
         scn.queries.extend(q);
         for (k, qi) in (base..scn.queries.len()).enumerate() {
             let h = 200 + k;
-            scn.history.push(Op::New { h, q: qi });
+            scn.history.push(Op::New { h, q: qi, gap_ms: 0 });
             scn.history.push(if rng.chance(1, 2) { Op::SolveAll { h } } else { Op::Next { h } });
             scn.history.push(Op::Next { h });
         }
@@ -228,7 +230,7 @@ fn make_scenario(seed: u64, part: &str, index: u64) -> (Scenario, Vec<MOp>) {
             let mut ops = vec![];
             for (k, qi) in (base..scn.queries.len()).enumerate() {
                 let h = 100 + k;
-                ops.push(Op::New { h, q: qi });
+                ops.push(Op::New { h, q: qi, gap_ms: 0 });
                 let n = rng.range(1, 5);
                 for _ in 0..n {
                     ops.push(match rng.below(4) {
@@ -251,7 +253,7 @@ fn make_scenario(seed: u64, part: &str, index: u64) -> (Scenario, Vec<MOp>) {
     let allow_limit = index % 16 == 5; // one scenario in 16 waits for the real 1000 ms limit
     for op in scn.history.clone() {
         match &op {
-            Op::New { h, q } => {
+            Op::New { h, q, .. } => {
                 newest = Some((*h, *q));
                 // timer operations between queries (start_query() resets the variable counter,
                 // so it must not be called while a query is live)
@@ -285,6 +287,7 @@ fn make_scenario(seed: u64, part: &str, index: u64) -> (Scenario, Vec<MOp>) {
                 }
             }
             Op::Idle { ms } => mops.push(MOp::Q(Op::Idle { ms: (*ms).min(3) })),
+            Op::Assert { c } => mops.push(MOp::AssertExtra { c: *c }),
             Op::Drop { .. } => mops.push(MOp::Q(op.clone())),
         }
     }
@@ -301,10 +304,10 @@ fn make_scenario(seed: u64, part: &str, index: u64) -> (Scenario, Vec<MOp>) {
             let kind = rng.below(4);
             let h = 300;
             let extra = vec![
-                MOp::Q(Op::New { h, q }),
+                MOp::Q(Op::New { h, q, gap_ms: 0 }),
                 MOp::Q(Op::Next { h }),
                 MOp::KbMutate { kind, q },
-                MOp::Q(Op::New { h: h + 1, q }),
+                MOp::Q(Op::New { h: h + 1, q, gap_ms: 0 }),
                 MOp::Q(Op::Next { h: h + 1 }),
                 MOp::Q(Op::Next { h: h + 1 }),
             ];
@@ -409,12 +412,18 @@ fn run_scenario(scn: &Scenario, mops: &[MOp], t: &mut Tally) {
     while i < mops.len() {
         // (parse_query resets the variable counter like every query constructor, so parsing is also
         // done between segments, when no query is live)
-        let end = mops[i..].iter().position(|m| matches!(m, MOp::KbMutate { .. } | MOp::ParseTexts { .. })).map(|p| i + p).unwrap_or(mops.len());
+        let end = mops[i..].iter().position(|m| matches!(m, MOp::KbMutate { .. } | MOp::ParseTexts { .. } | MOp::AssertExtra { .. })).map(|p| i + p).unwrap_or(mops.len());
         run_segment(scn, &kb, &mops[i..end], t);
         if end < mops.len() {
             match &mops[end] {
                 MOp::KbMutate { kind, q } => mutate_kb(&mut kb, scn, *kind, *q, t),
                 MOp::ParseTexts { seed } => parse_texts(*seed, scn, t),
+                MOp::AssertExtra { c } => {
+                    if *c < scn.extra_clauses.len() {
+                        add_rules(&mut kb, vec![scn.extra_clauses[*c].to_suiron()]);
+                        t.kb_mutations += 1;
+                    }
+                }
                 _ => {}
             }
         }
@@ -429,7 +438,7 @@ fn run_segment(scn: &Scenario, kb: &KnowledgeBase, mops: &[MOp], t: &mut Tally) 
     for mop in mops {
         t.ops += 1;
         match mop {
-            MOp::Q(Op::New { h, q }) => {
+            MOp::Q(Op::New { h, q, gap_ms: 0 }) => {
                 let spec = &scn.queries[*q];
                 let goal = spec.to_suiron();
                 let sn = make_base_node(Rc::new(goal.clone()), kb);
@@ -520,7 +529,7 @@ fn run_segment(scn: &Scenario, kb: &KnowledgeBase, mops: &[MOp], t: &mut Tally) 
                 let _ = query_stopped();
             }
             MOp::KbMutate { .. } => {}
-            MOp::ParseTexts { .. } => {}
+            MOp::ParseTexts { .. } | MOp::AssertExtra { .. } => {}
         }
     }
 }
